@@ -807,15 +807,20 @@ class Ctx:
             if can_t and can_f:
                 choice, free = True, True
             else:
-                # forced: not a decision point
+                # forced: not a decision point -- but recorded in the trail (free=False), so that a replay, which cannot tell forced
+                # from free branches without asking the solver again, consumes the same sequence of branch outcomes
                 c = can_t
+                self.trail.append(c)
+                self.free.append(False)
+                if len(self.trail) > 200000:
+                    raise TooManyPaths('more than 200000 branches on one path')
                 self.pc.append(cond if c else z3.Not(cond))
                 self._solver_add(self.pc[-1])
                 return c
         self.trail.append(choice)
         self.free.append(free)
-        if len(self.trail) > 4000:
-            raise TooManyPaths('more than 4000 decisions on one path')
+        if len(self.trail) > 200000:
+            raise TooManyPaths('more than 200000 branches on one path')
         z = cond if choice else z3.Not(cond)
         self.pc.append(z)
         self._solver_add(z)
